@@ -42,3 +42,14 @@ void h_mono_y(void) { in_z = ZOOM; in_x = nondet_double(); in_x2 = nondet_double
   __CPROVER_assert(verif_tiley(ZOOM, in_x) >= verif_tiley(ZOOM, in_x2), "tile y never decreases when moving south"); END; }
 void h_lon_mono(void) { in_a = nondet_int(); __CPROVER_assume(in_a >= -1800000000 && in_a < 1800000000);
   __CPROVER_assert(verif_lon_to_x(in_a) < verif_lon_to_x(in_a + 1), "projected x strictly increases with the fixed-point longitude"); END; }
+/* outside the projected square: valid locations with latitudes beyond +-85.0511288 degrees project there, down to y = -133 044 556 for the last
+   representable latitude before the south pole and to -infinity for the south pole itself (lat_to_y(-90) = -inf), up to y = 238 107 693 for the north
+   pole: everything south of the square is in the last tile row, everything north of it in row 0 */
+#define YMIN -1.4e8
+#define YMAX 2.4e8
+void h_clamp_south(void) { in_z = nondet_uint(); __CPROVER_assume(in_z <= 30); in_x = nondet_double();
+  __CPROVER_assume((in_x >= YMIN && in_x <= -MAXC) || in_x == -__builtin_inf());
+  __CPROVER_assert(verif_tiley(in_z, in_x) == (1u << in_z) - 1, "everything south of the projected square, down to the south pole, is in the last tile row"); END; }
+void h_clamp_north(void) { in_z = nondet_uint(); __CPROVER_assume(in_z <= 30); in_x = nondet_double();
+  __CPROVER_assume(in_x >= MAXC && in_x <= YMAX);
+  __CPROVER_assert(verif_tiley(in_z, in_x) == 0, "everything north of the projected square is in tile row 0"); END; }
